@@ -12,7 +12,7 @@ elif [ -x _seeded/demo/run.sh ]; then demo_cmd="./_seeded/demo/run.sh"; demo_fil
 fi
 {
 echo "id=$id demo_cmd=$demo_cmd"
-git diff --quiet -- . ':!_seeded' && echo "WARNING: no source change applied"
+git diff --quiet && echo "WARNING: no source change applied"
 timeout 1200 $demo_cmd > $base/$id.demo_with.log 2>&1; echo "demo_with_patch_exit=$?"
 git apply -R _seeded/patch.diff || echo "REVERT FAILED"
 timeout 1200 $demo_cmd > $base/$id.demo_without.log 2>&1; echo "demo_without_patch_exit=$?"
